@@ -117,7 +117,7 @@ ALIAS_CONTEXTS = ['%s', 'op_push1 x01 %s', 'op_push2 x0102 %s', 'true if { %s }'
                   'try { %s } except { true }', 'try { true } except { %s }',
                   'true loop { %s false }', 'false if { true } else { %s }',
                   'push ~ { %s }']
-RUN_SCRIPTS = ['msg', 'msg2', 'ct', 'inv0', 'inv1', 'inv2', 'xfer', 'sign',
+RUN_SCRIPTS = ['msg', 'msg2', 'ct', 'ctsame', 'inv0', 'inv1', 'inv2', 'xfer', 'sign',
                'fail', 'cachekey']
 NESTS = ['top', 'if', 'else', 'try', 'except', 'loop', 'call', 'eval', 'if_call', 'if_try_call']
 DEPTH = {'top': 0, 'if': 1, 'else': 1, 'try': 1, 'except': 1, 'loop': 1, 'call': 1, 'eval': 1,
@@ -171,9 +171,9 @@ def _rand_op(rng: Rng):
             op['nest'] = rng.choice(NESTS)
             kind = rng.weighted([(4, 'plugin'), (4, 'abi'), (2, 'ct')])
             if kind == 'plugin':
-                op['script'] = rng.choice(['msg', 'msg2', 'ct', 'sign'])
+                op['script'] = rng.choice(['msg', 'msg2', 'ct', 'ctsame', 'sign'])
                 op['fault'] = {'cb': ['plugin', rng.below(3)],
-                               'scope': 'ct' if op['script'] == 'ct' and rng.chance(1, 2) else 'se',
+                               'scope': 'ct' if op['script'] in ('ct', 'ctsame') and rng.chance(1, 2) else 'se',
                                'act': rng.choice(['raise_exc', 'raise_see', 'raise_custom',
                                                   'remove_self', 'add_sibling', 'reset_scope',
                                                   'add_contract', 'remove_contract',
@@ -417,6 +417,9 @@ def _script_src(name, nest):
         body = 'get_message x00 pop0 get_message x00 pop0'
     elif name == 'ct':
         body = 'push x%s check_template x01 pop0' % TEMPLATE.hex()
+    elif name == 'ctsame':
+        # the template equals the field: the plugins still decide
+        body = 'push x%s check_template x01 pop0' % FIELD.hex()
     elif name.startswith('inv'):
         body = 'push d0 push x%s invoke pop0' % IDS['ID' + name[3]].hex()
     elif name == 'xfer':
@@ -532,18 +535,20 @@ def probe_registry(w):
     if obs != exp or r != ['ok', [FIELD]]:
         bad.append(['plugins/signature_extensions', [obs, r[0]], exp])
     # check_template scope (signature extensions run first, flag 10)
-    _pin()
-    w.log = []
-    r = _outcome(lambda: F.run_script(
-        T.compile_script('push x%s check_template x01' % TEMPLATE.hex()),
-        {'sigfield1': FIELD})[1].list())
-    obs_se = sorted(e[1] for e in w.log if e[0] == 'P' and e[2] == 'se')
-    obs_ct = sorted(e[1] for e in w.log if e[0] == 'P' and e[2] == 'ct')
-    exp_ct = sorted(m.plugins.get('check_template', []))
-    verdict = any(PRET[i] for i in exp_ct) if exp_ct else False
-    expr = ['ok', [b'\xff' if verdict else b'\x00']]
-    if obs_ct != exp_ct or obs_se != exp or r != expr:
-        bad.append(['plugins/check_template', [obs_se, obs_ct, r], [exp, exp_ct, expr]])
+    for tmpl in (TEMPLATE, FIELD):      # (a template equal to the field is no exception)
+        _pin()
+        w.log = []
+        r = _outcome(lambda: F.run_script(
+            T.compile_script('push x%s check_template x01' % tmpl.hex()),
+            {'sigfield1': FIELD})[1].list())
+        obs_se = sorted(e[1] for e in w.log if e[0] == 'P' and e[2] == 'se')
+        obs_ct = sorted(e[1] for e in w.log if e[0] == 'P' and e[2] == 'ct')
+        exp_ct = sorted(m.plugins.get('check_template', []))
+        verdict = any(PRET[i] for i in exp_ct) if exp_ct else tmpl == FIELD
+        expr = ['ok', [b'\xff' if verdict else b'\x00']]
+        if obs_ct != exp_ct or obs_se != exp or r != expr:
+            bad.append(['plugins/check_template' + ('_same' if tmpl == FIELD else ''),
+                        [obs_se, obs_ct, r], [exp, exp_ct, expr]])
     # custom scope through run_plugins on a tape of a fresh run
     _pin()
     w.log = []
@@ -711,10 +716,10 @@ def do_run(w, op, run):
         ct = sorted(eff_pl.get('check_template', []))
         got_se = sorted(e[1] for e in log if e[0] == 'P' and e[2] == 'se')
         got_ct = sorted(e[1] for e in log if e[0] == 'P' and e[2] == 'ct')
-        mult = {'msg': 1, 'msg2': 2, 'ct': 1, 'sign': 2}.get(name)
+        mult = {'msg': 1, 'msg2': 2, 'ct': 1, 'ctsame': 1, 'sign': 2}.get(name)
         if mult is not None:
             run.check('run_uses_effective_plugins',
-                      got_se == sorted(se * mult) and got_ct == (ct if name == 'ct' else []),
+                      got_se == sorted(se * mult) and got_ct == (ct if name in ('ct', 'ctsame') else []),
                       'C19/run/plugins_used_mismatch/%s' % (
                           'with_override' if ov_p is not None else 'registry_only'),
                       detail={'op': op, 'got': [got_se, got_ct], 'want': [se * mult, ct]})
